@@ -33,7 +33,7 @@ def relvisit_plan(tier):
     # (number of alternatives of the wide operand, also visit(wide, wide)?, harness args)
     if tier == "quick":
         return [(70, False, [])]
-    return [(70, False, []), (260, False, ["--part", "visit"]), (40, True, ["--part", "visit"])]
+    return [(70, False, []), (130, False, ["--part", "visit"]), (40, True, ["--part", "visit"])]
 
 
 def plan(tier):
@@ -56,7 +56,7 @@ def run(ctx):
     ctx.stats["evaluations"] = ctx.stats.get("transitions", 0)
     ctx.stats["distinct_nontrivial"] = ctx.stats.get("states", 0)
     ctx.rule = ("BFS over operation histories of two (and three) xtl::variant<Triv,NT,TH,Big> objects (Triv trivially copyable; NT nothrow-movable tracked; TH tracked with throwing copy, move and assignment; Big tracked 24 bytes) "
-                "the 6-alternative variant<Triv,NT,TH,Big,TH,NT> with duplicate types (index-based access only) and variant<Triv,TT> whose alternatives are all trivially destructible while TT's converting constructor can throw after writing the storage, variant<Triv,NT,TM,Big> where TM has a nothrow move assignment but a throwing move constructor (every throw point of move assignment between different alternatives), variant<Triv,TA,TA',TA''> whose tracked alternatives have defaulted (trivial) copy/move assignment but registering constructors/destructors (the registry records which type was constructed at which address), plus a const third variant for 3-way visitation. WIDE part: a variant with 260 distinct alternatives; for the alternatives around 127/128, 255/256 and the ends (quick) / every alternative (thorough): emplace, index, valueless, holds_alternative, get/get_if incl. neighbours and index+256, visit, move (thorough also copy, assignment, swap, relational) and lifetime balance. RELATIONAL part (relvisit.cpp): all six operators on all ordered pairs of the 14 states of variant<Ind<0>,double,Ind<1>,Thrower> (valueless; Ind values 0..2 whose six comparison operators are independent truth tables, so an operator re-expressed through another one answers differently; double NaN, 1, 2, -0, +0, inf), oracle [variant.relops] written out and libstdc++ std::variant in the same states. MULTI-VISIT part: visit over 2 and 3 variants where one operand has 70 (quick; thorough also 260, and 40 x 40) alternatives, EVERY tuple of active indices and a valueless operand in every position: exactly one call, with the active alternatives and the held objects in operand order. State = history replayed on a fresh world, "
+                "the 6-alternative variant<Triv,NT,TH,Big,TH,NT> with duplicate types (index-based access only) and variant<Triv,TT> whose alternatives are all trivially destructible while TT's converting constructor can throw after writing the storage, variant<Triv,NT,TM,Big> where TM has a nothrow move assignment but a throwing move constructor (every throw point of move assignment between different alternatives), variant<Triv,TA,TA',TA''> whose tracked alternatives have defaulted (trivial) copy/move assignment but registering constructors/destructors (the registry records which type was constructed at which address), plus a const third variant for 3-way visitation. WIDE part: a variant with 260 distinct alternatives; for the alternatives around 127/128, 255/256 and the ends (quick) / every alternative (thorough): emplace, index, valueless, holds_alternative, get/get_if incl. neighbours and index+256, visit, move (thorough also copy, assignment, swap, relational) and lifetime balance. RELATIONAL part (relvisit.cpp): all six operators on all ordered pairs of the 14 states of variant<Ind<0>,double,Ind<1>,Thrower> (valueless; Ind values 0..2 whose six comparison operators are independent truth tables, so an operator re-expressed through another one answers differently; double NaN, 1, 2, -0, +0, inf), oracle [variant.relops] written out and libstdc++ std::variant in the same states. MULTI-VISIT part: visit over 2 and 3 variants where one operand has 70 (quick; thorough also 130, and 40 x 40) alternatives, EVERY tuple of active indices and a valueless operand in every position: exactly one call, with the active alternatives and the held objects in operand order. State = history replayed on a fresh world, "
                 "deduplicated by (index,value,moved-from) of both variants; to fixpoint. Alphabet: emplace<I>(args / copy / move), emplace<T>, converting assignment from lvalue/rvalue of every alternative, "
                 "copy/move assignment incl. self, member and free swap incl. self, copy/move construction into a temporary and in place, recreate. FAULTS: each operation in each state unfaulted (counting K throw points) "
                 "and then with the k-th throwing for every k=1..K. Oracle: fault-free = hand model cross-checked with std::variant in lock-step; faulted = the statement's rule (valueless or a fully constructed alternative "
